@@ -195,6 +195,50 @@ func RunC05(c *engine.Ctx) {
 		c.Cov["jdk_decrypted_gokrb5_ciphertexts"] = agree
 		c.Cov["jdk_requests"] = len(jlines)
 	}
+	// dense usage sweep: every usage 0..8192 and around every power of two, one key, one short plaintext, both
+	// directions (the key derivation folds the usage number; carries in the fold depend on its bit pattern)
+	{
+		// usage 0 is not a Kerberos key usage (gokrb5 documents it as "use the key without derivation" and its
+		// encryption side then fails with an error): not judged
+		var dense []uint32
+		for u := uint32(1); u <= 8192; u++ {
+			dense = append(dense, u)
+		}
+		for k := uint(13); k < 32; k++ {
+			dense = append(dense, 1<<k-1, 1<<k, 1<<k+1, 1<<k+255)
+		}
+		dense = append(dense, 0xffffffff, 0xfffffffe, 0x7fffffff, 0x00ff00ff, 0xff00ff00, 0x0000ffff, 0xffff0000)
+		rr := rand.New(rand.NewSource(c.Seed + 9))
+		var n int64
+		for _, et := range rcrypto.Etypes {
+			p, _ := rcrypto.Get(et)
+			g := goET(et)
+			key := keys(et, 1, c.Seed+4)[0]
+			pt := randBytes(rr, 21)
+			for _, u := range dense {
+				cs := map[string]interface{}{"etype": et, "usage": u, "key": hex.EncodeToString(key), "plaintext": hex.EncodeToString(pt), "what": "dense-usage-sweep"}
+				var ct []byte
+				var err error
+				if pn := safely(func() { _, ct, err = g.EncryptMessage(key, append([]byte{}, pt...), u) }); pn != "" || err != nil {
+					c.Violate("dense", fmt.Sprintf("enc:et%d:fails:dense-usage", et), map[string]interface{}{"panic": pn, "err": fmt.Sprint(err)}, cs)
+					continue
+				}
+				n++
+				if _, out, rerr := rcrypto.Decrypt(et, key, u, ct); rerr != nil || !expectPlain(et, pt, out) {
+					c.Violate("dense", fmt.Sprintf("enc:et%d:reference-cannot-decrypt:dense-usage", et), map[string]interface{}{"err": fmt.Sprint(rerr)}, cs)
+					continue
+				}
+				rct, _ := rcrypto.EncryptWithConfounder(et, key, u, randBytes(rr, p.Conf), pt)
+				var out []byte
+				if pn := safely(func() { out, err = g.DecryptMessage(key, append([]byte{}, rct...), u) }); pn != "" || err != nil || !expectPlain(et, pt, out) {
+					c.Violate("dense", fmt.Sprintf("dec:et%d:rejects-reference-ciphertext:dense-usage", et), map[string]interface{}{"panic": pn, "err": fmt.Sprint(err)}, cs)
+				}
+				n++
+			}
+			c.Distinct(fmt.Sprintf("dense/%d", et))
+		}
+		c.Add("evaluations", n)
+	}
 	ev := c.Counter("evaluations")
 	c.Add("states", int64(len(rcrypto.Etypes)*(maxLen+1)*len(Usages)))
 	c.Add("transitions", ev)
